@@ -179,6 +179,33 @@ def run_odd_repr(text, res):
   res.w('unrepresentable_value_omitted')
 
 
+def run_singleton_replay(clear_constants, res):
+  """A singleton whose constructor is a configurable: the replay (clear, parse the operative text, same calls) runs the
+  constructor again, so its section is there again."""
+  art = {'special': 'singleton_replay', 'clear_constants': clear_constants}
+  harness.hard_reset()
+  del REC[:]
+  res.case(('singleton_replay', clear_constants), True)
+  gin.parse_config("c07.consumer.p = @shared/gin.singleton()\nshared/gin.singleton.constructor = @c07.g\nshared/c07.g.t = 'T'\n")
+  for _ in range(2):
+    gin.get_configurable('c07.consumer')()
+  first, text = list(REC), gin.operative_config_str()
+  gin.clear_config(clear_constants=clear_constants)
+  del REC[:]
+  try:
+    gin.parse_config(text)
+    for _ in range(2):
+      gin.get_configurable('c07.consumer')()
+  except Exception as e:  # pylint: disable=broad-except
+    res.violation('operative_unparseable', 'singleton replay: %r\n%s' % (e, text), art)
+    return
+  if list(REC) != first or gin.operative_config_str() != text:
+    res.violation('replay_differs', 'singleton with a configurable constructor: the first run recorded %r and\n%s\n--- the '
+                  'replay recorded %r and\n%s' % (first, text, list(REC), gin.operative_config_str()), art)
+  else:
+    res.w('singleton_constructor_replayed')
+
+
 SH = {}
 SH_WANT = {'sh_all': {'x': '1', 'y': '2', 'z': '3'}, 'sh_allow': {'x': '1'}, 'sh_deny': {'x': '1', 'z': '3'}}
 
@@ -801,6 +828,8 @@ def run(ctx):
     run_dotted_scope(name, res)
   for text in ODD_REPRS + ['HUGE']:
     run_odd_repr(text, res)
+  for cc in (False, True):
+    run_singleton_replay(cc, res)
   import itertools  # pylint: disable=import-outside-toplevel
   for k in (1, 2, 3):
     for order in itertools.permutations(sorted(SH), k):
@@ -829,6 +858,11 @@ def run(ctx):
 
 
 def replay(obj):
+  if obj.get('special') == 'singleton_replay':
+    res = core.Result()
+    run_singleton_replay(obj['clear_constants'], res)
+    harness.hard_reset()
+    return res
   if obj.get('special') == 'odd_repr':
     res = core.Result()
     run_odd_repr(obj['repr'], res)
